@@ -178,8 +178,34 @@ def run_case(spec):
             sref = t * d
             qref = float(g @ sref + 0.5 * sref @ (sign * sub.H) @ sref)
             # the gain must be representable next to |c| as well: |c + q| cannot grow by less than eps*|c|
-            if qref > 1e3 * EPS * n * (sub.qmag(sref) + abs(sub.const)) and qref > 0:
+            if not (qref > 1e3 * EPS * n * (sub.qmag(sref) + abs(sub.const)) and qref > 0):
+                continue
+            # ... and so must the gain available along the Cauchy direction itself, the maximiser s_C of the
+            # linear term over box and ball (what a "Cauchy geometry step" moves along): the step is
+            # alpha*s_C with the best alpha in [0, 1].  When positive curvature along s_C leaves a gain below
+            # eps*|c|, |c + q| cannot show it, whatever another direction would give.
+            lo_mu, hi_mu = 0.0, 1.0
+            sc = lambda mu: np.clip(mu * g, np.where(np.isfinite(xl), xl, -sub.delta), np.where(np.isfinite(xu), xu, sub.delta))
+            while float(np.linalg.norm(sc(hi_mu))) < sub.delta and hi_mu < 1e300 and np.any(sc(hi_mu) != sc(2 * hi_mu)):
+                hi_mu *= 2.0
+            if float(np.linalg.norm(sc(hi_mu))) > sub.delta:
+                for _ in range(200):
+                    mid = 0.5 * (lo_mu + hi_mu)
+                    if float(np.linalg.norm(sc(mid))) > sub.delta:
+                        hi_mu = mid
+                    else:
+                        lo_mu = mid
+                s_c = sc(lo_mu)
+            else:
+                s_c = sc(hi_mu)
+            a_c = float(g @ s_c)
+            k_c = float(s_c @ (sign * sub.H) @ s_c)
+            al = 1.0 if k_c >= 0 else min(1.0, a_c / (-k_c))
+            gain_c = al * a_c + 0.5 * al * al * k_c
+            if gain_c > 1e3 * EPS * n * (sub.qmag(s_c) + abs(sub.const)):
                 gains.append(qref)
+            else:
+                out.label("cauchy-direction-gain-not-representable")
         if gains:
             improved = (abs(sub.const + qs) > abs(sub.const)) or (sub.const > 0 and qs > 0) or (
                 sub.const < 0 and qs < 0) or (sub.const == 0 and qs != 0)
